@@ -1,6 +1,7 @@
 import Pandora.Drv.Util
 import Pandora.Model.C07
 import Pandora.Spec.C07
+import Pandora.Model.C07Json
 
 /-!
 Line driver of C07.  Input = what harness/cmd/c07 generated (format, limit, file bytes, and for the
@@ -148,8 +149,11 @@ def handleFileCfg (f : Fmt) (cfg : Hdrs) (kv : List (String × String)) (impl : 
               | some c, some l => c != l
               | _, _ => false
             let strs := fr.mapM fun ft =>
-              match (if differs then none else frameCanon ft.frame), lookup tbl (hex ft.frame) with
-              | some c, _ => some (enrichCanon cfg c ++ ",t=" ++ hex ft.tag)
+              -- plain frames: the option is applied on the structured request (`enrichF`, the function the theorems
+              -- `C07_raw_option_*` speak about); the model side below applies `enrichCanon` on the text - both must
+              -- agree with the real provider
+              match (if differs then none else frameCanonCfg cfg ft.frame), lookup tbl (hex ft.frame) with
+              | some c, _ => some (c ++ ",t=" ++ hex ft.tag)
               | none, some "!" => none
               | none, some c => some (enrichCanon cfg c ++ ",t=" ++ hex ft.tag)
               | none, none => none
@@ -180,7 +184,18 @@ def handleJsonCfg (cfg : Hdrs) (kv : List (String × String)) (impl : String) : 
     if !ents.all entityKnown then (m, "skip:outside-model")
     else
       let pass := ents.map fun e => reqStr (entityReq cfg e.host e.method e.uri e.tag e.body e.headers)
-      (m, judge (canonOrder conc (expected pass k)) (expectedErr pass) ireqs ierr)
+      let v := judge (canonOrder conc (expected pass k)) (expectedErr pass) ireqs ierr
+      -- round 4: the Lean side reads the JSON TEXT of the file itself (`jsonDoc`); what it reads must be the entities the
+      -- generator rendered (and the array / stream mode).  A disagreement or a file outside the reader's class is counted
+      -- as a skip, never as a failure of the provider.
+      match (lookup kv "jfile").bind hexB with
+      | none => (m, v)
+      | some file =>
+        match jsonDoc file with
+        | none => (m, if v == "ok" then "skip:json-text-outside-reader" else v)
+        | some (arr, es) =>
+          if es == ents && arr == (getS kv "mode" == "array") then (m, v)
+          else (m, if v == "ok" then "skip:lean-json-differs-from-generator" else v)
   | none, _ => ("-", "fail:driver:unparsable entities")
   | _, none => ("-", s!"fail:crash:unparsable observation {impl.take 80}")
 
